@@ -42,6 +42,9 @@ def _scrub(v, depth=0):
         pass
 
 
+_REUSED = {}
+
+
 def main():
     prop_id = sys.argv[1]
     proto_out = os.fdopen(os.dup(1), "w", buffering=1)
@@ -78,10 +81,33 @@ def main():
                     elif op.endswith("@memoryview"):   # ... or as a read-only memoryview (zero-copy slice of a buffer)
                         op = op[:-len("@memoryview")]
                         args = [memoryview(a) if isinstance(a, bytes) else a for a in args]
+                    elif op.endswith("@reuse") or op.endswith("@reuselist"):
+                        # the caller keeps ONE buffer / ONE list per argument position and refills it in place before
+                        # every call (a read loop, a transaction being edited): whatever the library remembered about
+                        # the object from an earlier call (identity- or reference-keyed caches) is stale now
+                        with_bytes = op.endswith("@reuse")
+                        op = op[:op.rindex("@")]
+                        orig_args = args
+                        new = []
+                        for i, a in enumerate(args):
+                            if isinstance(a, bytes) and with_bytes:
+                                buf = _REUSED.setdefault((op, i, "b"), bytearray())
+                                buf[:] = a
+                                new.append(buf)
+                            elif isinstance(a, list):
+                                lst = _REUSED.setdefault((op, i, "l"), [])
+                                lst[:] = a
+                                new.append(lst)
+                            else:
+                                new.append(a)
+                        args = new
                     v = prop.IMPL[op](*args)
                     signal.setitimer(signal.ITIMER_REAL, 0)
                     if orig_args is not None and any(isinstance(o, bytes) and bytes(a) != o for o, a in zip(orig_args, args)):
                         raise RuntimeError("the call modified its caller's argument buffer in place")
+                    if orig_args is not None and any(isinstance(o, list) and common.enc(a) != common.enc(o)
+                                                     for o, a in zip(orig_args, args)):
+                        raise RuntimeError("the call modified its caller's list argument in place")
                     out = "ok " + common.enc(v)
                     if scrub:
                         _scrub(v)
